@@ -4,7 +4,7 @@ import json, os, subprocess
 ROOT = os.path.dirname(os.path.dirname(os.path.abspath(__file__)))
 # property a fix is recorded under (first matching keyword in the commit subject)
 RULES = [
-    ("skip(n)", "C10"), ("time limit", "C10"), ("multinom", "C10"), ("sample(seq", "C10"), ("pow size pre-check", "C10"), ("pow with an exponent", "C10"), ("common type of two instances", "C04"), ("callable-typed value was assignable", "C04"), ("two function types compared equal", "C04"), ("default-value", "C04"), ("calls through", "C04"), ("forward", "C03"), ("grammar: an identifier", "C03"), ("grammar: 'struct'", "C03"), ("user-defined function", "C06"), ("zip of sequences", "C06"), ("set_default", "C06"),
+    ("skip(n)", "C10"), ("time limit", "C10"), ("multinom", "C10"), ("sample(seq", "C10"), ("pow size pre-check", "C10"), ("pow with an exponent", "C10"), ("common type of two instances", "C04"), ("callable-typed value was assignable", "C04"), ("two function types compared equal", "C04"), ("default-value", "C04"), ("calls through", "C04"), ("dynamic (library) overloads", "C05"), ("forward", "C03"), ("grammar: an identifier", "C03"), ("grammar: 'struct'", "C03"), ("user-defined function", "C06"), ("zip of sequences", "C06"), ("set_default", "C06"),
     ("merge sort", "C19"), ("hash of a set/mapping", "C19"), ("format of i64::MIN", "C14"),
     ("generator", "C16"), ("generators", "C16"),
     ("sequence", "C15"), ("range", "C15"), ("combination", "C15"), ("to_array", "C15"),
